@@ -1992,6 +1992,9 @@ _PATH_OUTSIDE = {
 }
 
 
+_ALIAS_JUNK = ["1e3", "soon", INF, -INF, NAN, None, [], "", " 7 ", 2.5, True, BIG, "0x10", {"a": 1}, "600", 0, "1_0", b"5"]
+
+
 def _draw_numeric_mapping(draw):
     """(path, value): a t1.decay / t1.edge_type_mult mapping whose numbers sit on boundaries (or beyond, see above)."""
     if draw(st.booleans()):
@@ -2056,6 +2059,20 @@ def runnable_cases(draw):
     if draw(st.sampled_from([True, False, False])):
         p, v = _draw_numeric_mapping(draw)
         lenient.append([list(p), enc(v)])
+    if draw(st.sampled_from([True, False, False])):
+        # TTL alias spellings of the three caches (t1/t2: ttl_s canonical, ttl_sec alias; t4: the other way round) with values
+        # the validator tolerates by falling back (it normalises only the canonical leaf and hands the alias back RAW):
+        # alone, or next to the canonical key carrying another value.  Whatever is accepted must run on a fresh state.
+        sec, canonical, alias = draw(st.sampled_from([(("t1", "cache"), "ttl_s", "ttl_sec"), (("t2", "cache"), "ttl_s", "ttl_sec"),
+                                                      (("t4", "cache"), "ttl_sec", "ttl_s"), (("t4", "cache"), "ttl_sec", "ttl_s")]))
+        lenient.append([list(sec) + [alias], enc(copy.deepcopy(draw(st.sampled_from(_ALIAS_JUNK))))])
+        how = draw(st.sampled_from(["alone", "both", "both_junk"]))
+        if how == "both":
+            lenient.append([list(sec) + [canonical], draw(st.sampled_from([0, 30, 600, 7]))])
+        elif how == "both_junk":
+            lenient.append([list(sec) + [canonical], enc(copy.deepcopy(draw(st.sampled_from(_ALIAS_JUNK))))])
+        if sec == ("t4", "cache") and draw(st.booleans()):
+            lenient.append([["t4", "cache", "enabled"], True])
     # world: fixed non-trivial core + drawn variation
     w_ab = draw(st.sampled_from([0.9, 1.0, 0.5, -0.5]))
     rel = draw(st.sampled_from(["supports", "associates", "contradicts", "weird"]))
@@ -2190,6 +2207,8 @@ def check_runnable(case, rec=None):
     labels = ["lenient" if lenient else "table_valid"]
     if any(tuple(p) in (("t1", "decay"), ("t1", "edge_type_mult")) and isinstance(dec(v), dict) and dec(v) for p, v in lenient):
         labels.append("numeric_mapping")
+    if any(list(p[:2]) in (["t1", "cache"], ["t2", "cache"], ["t4", "cache"]) and len(p) == 3 and p[2] in ("ttl_s", "ttl_sec") for p, _ in lenient):
+        labels.append("ttl_alias")
     with W.sandbox("c14_run_") as root:
         eng = observe.Engine(build_world(case["world"]), root)
         base = eng.cfg({})
